@@ -48,6 +48,7 @@ type runner struct {
 	valid []byte // JSON of the honest response
 	mc    *mctx
 	cid   int
+	sid   int // sequence ids
 	rid   int
 	stats map[string]int
 	viol  map[string]int
@@ -67,6 +68,8 @@ func classOf(err error) string {
 		return "bad-frame-hash"
 	case strings.HasPrefix(s, "panic:"):
 		return "panic"
+	case strings.HasPrefix(s, "restore refused"):
+		return "restore-error"
 	}
 	return "reset-error"
 }
@@ -433,6 +436,7 @@ func (rn *runner) runHistory(thorough bool) {
 		}
 	}
 	rn.nodeCases(muts, thorough)
+	rn.sequences(muts, thorough)
 }
 
 func main() {
